@@ -311,9 +311,9 @@ theorem ResumeKey_marshal_idem (r : ResumeKey.V) (bs : Bytes) (r' : ResumeKey.V)
 
 /-! ### the laws -/
 
-theorem dec_stable (typ : String) (ht : typ ∈ lawfulTypes) (b suffix : Bytes) (r : Tup × Nat)
+theorem dec_stable (typ : String) (ht : typ ∈ openTypes) (b suffix : Bytes) (r : Tup × Nat)
     (h : dec typ b = .ok r) : dec typ (b ++ suffix) = .ok r := by
-  simp only [lawfulTypes, List.mem_cons, List.not_mem_nil, or_false] at ht
+  simp only [openTypes, List.mem_cons, List.not_mem_nil, or_false] at ht
   rcases ht with rfl | rfl | rfl | rfl | rfl | rfl | rfl | rfl
   · exact liftD_stable _ strTo SmbString_stable b suffix r h
   · exact liftD_stable _ strTo OemString_stable b suffix r h
@@ -324,9 +324,9 @@ theorem dec_stable (typ : String) (ht : typ ∈ lawfulTypes) (b suffix : Bytes) 
   · exact liftD_stable _ r64To Range64_stable b suffix r h
   · exact liftD_stable _ rkTo ResumeKey_stable b suffix r h
 
-theorem enc_idem (typ : String) (ht : typ ∈ lawfulTypes) (v : Tup) (bs : Bytes) (v' : Tup)
+theorem enc_idem (typ : String) (ht : typ ∈ openTypes) (v : Tup) (bs : Bytes) (v' : Tup)
     (h : enc typ v = .ok (bs, v')) : enc typ v' = .ok (bs, v') := by
-  simp only [lawfulTypes, List.mem_cons, List.not_mem_nil, or_false] at ht
+  simp only [openTypes, List.mem_cons, List.not_mem_nil, or_false] at ht
   rcases ht with rfl | rfl | rfl | rfl | rfl | rfl | rfl | rfl
   · exact lift_idem strOf SmbString.marshal strTo strOf_strTo SmbString_marshal_idem v bs v' h
   · exact lift_idem strOf OemString.marshal strTo strOf_strTo OemString_marshal_idem v bs v' h
@@ -337,9 +337,9 @@ theorem enc_idem (typ : String) (ht : typ ∈ lawfulTypes) (v : Tup) (bs : Bytes
   · exact lift_idem r64Of _ r64To r64Of_r64To (pure'_idem _) v bs v' h
   · exact lift_idem rkOf ResumeKey.marshal rkTo rkOf_rkTo ResumeKey_marshal_idem v bs v' h
 
-theorem enc_size (typ : String) (n : Nat) (v : Tup) (bs : Bytes) (v' : Tup) (ht : typ ∈ lawfulTypes)
+theorem enc_size (typ : String) (n : Nat) (v : Tup) (bs : Bytes) (v' : Tup) (ht : typ ∈ openTypes)
     (hn : fixedSize typ = some n) (h : enc typ v = .ok (bs, v')) : bs.length = n := by
-  simp only [lawfulTypes, List.mem_cons, List.not_mem_nil, or_false] at ht
+  simp only [openTypes, List.mem_cons, List.not_mem_nil, or_false] at ht
   rcases ht with rfl | rfl | rfl | rfl | rfl | rfl | rfl | rfl
   · have : fixedSize "SMB_STRING" = none := by decide
     rw [this] at hn; cases hn
@@ -379,10 +379,19 @@ theorem enc_size (typ : String) (n : Nat) (v : Tup) (bs : Bytes) (v' : Tup) (ht 
     rw [this] at hn; cases hn
 
 /-- **The standard codecs are lawful** on `lawfulTypes`. -/
+theorem pipeOf_pipeTo (p : PipeStatus.V) : pipeOf (pipeTo p) = some p := by simp [pipeOf, pipeTo, u8]
+
+theorem mem_lawful {typ : String} (ht : typ ∈ lawfulTypes) : typ ∈ openTypes ∨ typ = "SMB_NMPIPE_STATUS" := by
+  simpa [lawfulTypes] using ht
+
 theorem std_lawful_core : LawfulCodecs std (· ∈ lawfulTypes) where
-  idem := fun typ v bs v' ht h => enc_idem typ ht v bs v' h
+  idem := by
+    intro typ v bs v' ht h
+    rcases mem_lawful ht with ho | rfl
+    · exact enc_idem typ ho v bs v' h
+    · exact lift_idem pipeOf _ pipeTo pipeOf_pipeTo (pure'_idem _) v bs v' h
   rt := by
-    intro typ v bs v' ht h htup suffix
+    intro typ v bs v' ht h htup suffix hs
     unfold tupOk at htup
     rw [show std.enc typ v = .ok (bs, v') from h] at htup
     simp only [] at htup
@@ -390,9 +399,22 @@ theorem std_lawful_core : LawfulCodecs std (· ∈ lawfulTypes) where
     · rename_i d k hd
       simp only [Bool.and_eq_true, beq_iff_eq] at htup
       obtain ⟨rfl, rfl⟩ := htup
-      exact dec_stable typ ht bs suffix _ hd
+      rcases mem_lawful ht with ho | rfl
+      · exact dec_stable typ ho bs suffix _ hd
+      · rcases hs with rfl | hs
+        · rw [List.append_nil]; exact hd
+        · exact absurd hs (by decide)
     · cases htup
-  size := fun typ n v bs v' ht hn h => enc_size typ n v bs v' ht hn h
+  size := by
+    intro typ n v bs v' ht hn h
+    rcases mem_lawful ht with ho | rfl
+    · exact enc_size typ n v bs v' ho hn h
+    · obtain ⟨a, a', _, h2, _⟩ := lift_ok h
+      have := pure'_bytes h2
+      have hn' : n = 2 := by have : fixedSize "SMB_NMPIPE_STATUS" = some 2 := by decide
+                             rw [this] at hn; injection hn with hn; exact hn.symm
+      simp only [PipeStatus.encode, Outcome.ok.injEq] at this
+      subst this; subst hn'; rfl
 
 /-! ### `SetBufferFormat` -/
 
